@@ -220,6 +220,28 @@ def check_c01_c02(c, result):
         c.tie(tq9, res9, ip9, model9, result)
         oracle(c, tq9, res9, model9, result, c.files, k9)
         c.stats['nested_predicate_queries'] = len(tq9)
+    # (2h) a literal ending in an escaped backslash BEFORE a literal in which a white-space run matters
+    tq10, k10 = [], {}
+    n10 = 0
+    for P in LIT_STATE_P:
+        for Q in LIT_STATE_Q:
+            p_, q_ = P % 'v', Q % 'v'
+            forms = ['%s && %s' % (p_, q_), '%s && %s' % (q_, p_), '!(%s) || %s' % (p_, q_), '(%s) && (%s)' % (p_, q_)]
+            for w in (forms if c.tier != 'quick' else [forms[n10 % 4], forms[(n10 + 1) % 4]]):
+                qid = 'h%d' % n10
+                n10 += 1
+                tq10.append((qid, 'FROM variable_declaration AS v WHERE %s SELECT v.getName(), v.getVariableValue()' % w))
+                k10[qid] = 1
+            qid = 'h%d' % n10
+            n10 += 1
+            tq10.append((qid, 'predicate bs(variable_declaration y) { %s } FROM variable_declaration AS v WHERE bs(v) && %s SELECT v.getName()' % (P % 'y', q_)))
+            k10[qid] = 1
+    res10, ip10, _ = c.run(tq10)
+    model10 = c.model(tq10)
+    c.tie(tq10, res10, ip10, model10, result)
+    oracle(c, tq10, res10, model10, result, c.files, k10)
+    c.stats['literal_state_queries'] = len(tq10)
+    c.stats['literal_state_nonempty'] = sum(1 for q_, _ in tq10 if res10.get(q_, ('', ''))[0] == 'ok' and rs_multiset(res10[q_][1], 1))
     # (2d) string literals with multi-byte characters in conditions that are TRUE for (almost) every entity, with and
     # without predicates: a condition cut or re-encoded wrongly loses every match
     tq7, k7 = [], {}
@@ -342,6 +364,15 @@ def oracle(c, tq, res, model, result, files, kmap):
                 result.violations.append(payload_replay(pid, 'a qualifying combination is not reported exactly once (it is missing)', [t], 'missing: %s' % list((spec - impl).items())[:2], files))
 
 
+# literals that end in an escaped backslash (or hold an escaped quote) and, LATER in the same condition, literals in
+# which a white-space run matters (src/twins/Spaces.java has the near misses): what a scanner of the query text
+# that loses track of "inside a literal" gets wrong, and only in this order
+LIT_STATE_P = ['%s.getName() != "\\\\"', '%s.getName() != "C:\\\\docs\\\\"', '"\\\\" != %s.getName()', '%s.getName() != "a\\\\\\\\"',
+               '%s.getVariableDataType() != "\\"\\\\"', '%s.getVariableValue() != "\\"C:\\\\\\\\docs\\\\\\\\\\""']
+LIT_STATE_Q = ['%s.getVariableValue() == "\\"p  q\\""', '%s.getVariableValue() != "\\"p  q\\""', '%s.getVariableValue() == "\\"p\tq\\""',
+               '%s.getVariableValue() in ["\\"p  q\\"", "\\"p\tq\\""]']
+
+
 # ------------------------------------------------------------------ C12
 OPAQUE = {'method_declaration': ['%s.getDoc().NumberOfCommentLines > 3', '%s.getDoc().GetCommentAuthor() != "nobody"'],
           'class_declaration': ['%s.getDoc().NumberOfCommentLines > 3']}
@@ -400,12 +431,25 @@ def render_min(e, parent=None, right=False):
 def check_c12(c, result):
     kinds = [k for k in querygen.KINDS if c.vocab.get(k) is not None]
     cases, tq = [], []
-    for i in range(N[c.tier]['C12']):
-        nk = 2 if i % 3 == 2 else 1
-        ks = c.rng.sample(kinds, nk)
-        als = c.rng.sample(['m', 'md', 'x', 'e1', 'cd', 'q'], nk)
-        scope = list(zip(als, ks))
-        A, Bf, Cf = (total_formula(c, scope, c.rng.choice([0, 1, 2])) for _ in range(3))
+    # forced cases first: A's literal ends in an escaped backslash, B's (and C's) literal has a white-space run that
+    # matters; on method declarations B reads the Javadoc author (opaque to the model, real engine only)
+    forced = []
+    for j, P in enumerate(LIT_STATE_P[:4]):
+        Q = LIT_STATE_Q[j % len(LIT_STATE_Q)]
+        forced.append(([('v', 'variable_declaration')], ('atom', P % 'v'), ('atom', Q % 'v'), ('atom', LIT_STATE_Q[(j + 1) % len(LIT_STATE_Q)] % 'v')))
+    forced.append(([('md', 'method_declaration')], ('atom', 'md.getName() != "\\\\"'), ('atom', 'md.getDoc().GetCommentAuthor() == "John  Doe"'), ('atom', 'md.getName() != "beta"')))
+    forced.append(([('md', 'method_declaration')], ('atom', 'md.getDoc().GetCommentAuthor() != "John  Doe\\\\"'), ('atom', 'md.getDoc().GetCommentAuthor() == "John  Doe"'), ('atom', 'md.getVisibility() != "a  b"')))
+    for i in range(N[c.tier]['C12'] + len(forced)):
+        if i < len(forced):
+            scope, A, Bf, Cf = forced[i]
+            nk, als = 1, [scope[0][0]]
+            c.stats['c12_literal_state_cases'] += 1
+        else:
+            nk = 2 if i % 3 == 2 else 1
+            ks = c.rng.sample(kinds, nk)
+            als = c.rng.sample(['m', 'md', 'x', 'e1', 'cd', 'q'], nk)
+            scope = list(zip(als, ks))
+            A, Bf, Cf = (total_formula(c, scope, c.rng.choice([0, 1, 2])) for _ in range(3))
         decls = ''
         if i % 2 == 1:
             # atoms hidden behind predicates whose body is that single comparison: `!t0(x)` must still negate the
